@@ -275,6 +275,13 @@ def run_subprocess(argv, cwd):
     return done.returncode
 
 
+LOG_LEVELS = (None, "critical", "error", "warning", "info", "debug")
+
+
+def log_args(log):
+    return [] if log is None else ["--log", log]
+
+
 def until_args(until):
     return [] if until == "absent" else ["--until", until]
 
@@ -364,12 +371,14 @@ def check_multiset(sub, files, variant, multiset, classes, only=None):
         shown = [(k if v != "accepted" or k in ("A", "S") else "ok", v) for k, v in verdicts]
         expected, what = expectation(cid_state, shown)
         results = []
-        for order in orders:
+        for order_number, order in enumerate(orders):
+            # how much the command line is asked to log says nothing about its exit code
+            log = LOG_LEVELS[(UNTILS.index(until) + order_number + len(multiset)) % len(LOG_LEVELS)]
             case = {"cid": [container, written_state], "fmt": fmt, "files": list(order), "until": until,
-                    "naming": files.naming}
+                    "naming": files.naming, "log": log}
             if only is not None and not only(case):
                 continue
-            argv = ["cutplace"] + until_args(until) + [cid_path] + files.paths(order, fmt)
+            argv = ["cutplace"] + log_args(log) + until_args(until) + [cid_path] + files.paths(order, fmt)
             code = run_main(argv)
             results.append((case, code))
             evals += 1
@@ -401,7 +410,7 @@ def check_multiset(sub, files, variant, multiset, classes, only=None):
             if code not in expected:
                 _fail(sub, "C18|exit|expected-%s|got-%s|%s|%s" % (set_text(expected), code, what, where), case,
                       "main(%r) returned %s, expected %s; CID %s, per-file verdicts of cutplace.validate: %s" % (
-                          ["cutplace"] + until_args(until) + [os.path.basename(a) for a in
+                          ["cutplace"] + log_args(case["log"]) + until_args(until) + [os.path.basename(a) for a in
                                                               [cid_path] + files.paths(case["files"], fmt)],
                           code, set_text(expected), cid_state,
                           ", ".join("%s=%s" % kv for kv in verdicts) or "(no data files)"))
